@@ -90,9 +90,14 @@ func (s *state) walk(node ast.Node) {
 	case *ast.HeaderParamNode:
 		// TODO: Validate param types.
 	case *ast.ListNode:
+		// A list of nodes is the body of a block (template, if/elseif/else
+		// branch, switch case, loop iteration, let/param/log content): {let}
+		// variables introduced in it go out of scope where the block ends.
+		s.context.push()
 		for _, node := range node.Nodes {
 			s.walk(node)
 		}
+		s.context.pop()
 
 		// Output nodes ----------
 	case *ast.PrintNode:
